@@ -187,6 +187,57 @@ def run(rep, tier, seed, replay):
         else:
             rep.violation("oracle", bad, c.describe(), impl=c.impl[:500])
     rep.extra["direct_oracle_walks"] = len(direct)
+    # ---- directory names that are not UTF-8 (or contain a backslash) under a glob with component programs, followed by a
+    # pure observer: a directory whose (lossy) name the first component cannot match is discarded as a tree, so the observer
+    # sees nothing beneath it; a directory it can match is read. Compared with the model too.
+    if replay is None or replay["input"].get("what") == "bytes-observer":
+        import re as _re
+        from walkgen import T as _T
+        hh, mm_ = common.harness(), common.model()
+        trees = [_T("b:a1/x.rs", "b:\xff/y.rs", "b:\xff/sub/z.rs", "f:b2/w.rs", "b:a\xe9/k.rs"),
+                 _T("b:src/\xff/bdir/cdir/x.rs", "f:src/plain/bdir/cdir/y.rs", "f:src/plain/other/z.rs"),
+                 _T("f:a\\b/x.rs", "f:b\\a/y.rs", "f:a1/sub/z.rs")]
+        globs = [("a*/*.rs", r"^a"), ("*/b*/c*/*.rs", None), ("src/*/b*/c*/*.rs", None), ("a*/**", r"^a"), ("[!a]*/*.rs", r"^[^a]")]
+        cases2 = [(tr, g, first) for tr in trees for g, first in globs]
+        if replay is not None:
+            cases2 = [(replay["input"]["tree"], replay["input"]["glob"], replay["input"].get("first"))]
+        ans = hh.ask(["W g - %s f - - f: %s" % (hx(g), tr) for tr, g, _f in cases2])
+        mreq, keep = [], []
+        for (tr, g, first), a in zip(cases2, ans):
+            head, f = walklib.parse_answer(a)
+            if not head.startswith("root="):
+                rep.stats["bytes-observer:" + head] += 1
+                continue
+            keep.append((tr, g, first, f, a))
+            mreq.append("W g %s %s f - - f: %s %s" % (f.get("base", "-"), hx(g), f.get("root", "-"), f.get("rec", "-")))
+        rep.evaluations += len(cases2)
+        for (tr, g, first, f, a), ma in zip(keep, mm_.ask(mreq)):
+            rep.traces += 1
+            inp = {"what": "bytes-observer", "tree": tr, "glob": g, "first": first}
+            mh, mf = walklib.parse_answer(ma)
+            if mf.get("items") != f.get("items") or mf.get("logs") != f.get("logs"):
+                rep.stats["correspondence-broken"] += 1
+                rep.violation("correspondence", "walk: items and observer log of the real walk vs the walk model (names that are not UTF-8)", inp, impl=(f.get("logs") or "")[:300], model=(mf.get("logs") or mh)[:300])
+            root = unhx(f["root"])
+            logs = f.get("logs", "-")
+            seen = [unhx(x.split(":")[0]) for x in walklib.items(logs.split("|")[0])] if logs != "-" else []
+            rels = [p[len(root) + 1:] for p in seen if p.startswith(root + "/")]
+            bad = None
+            if first is not None:
+                for r0 in rels:
+                    parts = r0.split("/")
+                    if len(parts) >= 2 and not _re.search(first, parts[0]):
+                        bad = "the observer is fed %r, which lies beneath the directory %r that the first component of %r cannot match (it should have been discarded as a tree)" % (r0, parts[0], g)
+                        break
+                recorded = [pth[len(root) + 1:] for pth, _k, _d in walklib.rec_paths(f.get("rec", "-"), root)]
+                for r0 in recorded:
+                    parts = r0.split("/")
+                    if bad is None and len(parts) == 2 and _re.search(first, parts[0]) and r0 not in rels:
+                        bad = "the observer is never fed %r although the first component of %r matches the directory %r" % (r0, g, parts[0])
+            if bad:
+                rep.violation("oracle", bad, inp, impl=a[:400])
+            else:
+                rep.stats["bytes-observer: discarded trees are not read, others are"] += 1
     # ---- a glob walk followed by a pure observer: a directory whose name its component program rejects is discarded
     # as a tree, so nothing beneath it is shown downstream (the component programs are those the crate compiled, by the
     # hook; raw regex matching of a name against a program)
